@@ -58,6 +58,26 @@ CHECKS.update({
                      "table and match modes; names are attached to values. All subjects of a value set must produce identical transcripts."),
 })
 
+CHECKS.update({
+    "C15": dict(engine="E2 rustc oracle + E1 xpand + E3", design="§5 C15", note=E2_NOTE + " Requests that no Rust program could honour (an iterator struct more visible "
+                "than its item type: E0446) are excluded from the matrix.",
+                technique="exhaustive matrix of access probes (11 nameable features x vis values x default/custom name x enum visibilities x 4 probe sites incl. a sibling crate) judged by rustc against Rust's visibility rule; helper items enumerated over the whole configuration space (E1) and probed; 'user defines every unrequested name/trait' conflict probes; all-renamed subjects run",
+                text="Each generated item must be reachable under the requested name exactly at the sites its requested visibility allows (positive and negative "
+                     "probes, negative ones must fail with a privacy/unresolved error), the default name must not exist after renaming, helper items discovered by "
+                     "E1 must be private, a user must be able to define every default name and implement every trait that was not requested, and dependants must "
+                     "work when every item is renamed (built and run)."),
+    "C16": dict(engine="E3 subjects+driver + E2 + E1 cover", design="§5 C16", note=E3_NOTE + " Primitive type names (str, usize, ...) are language built-ins, not prelude/core "
+                "items, and are not shadowed. Edition-2015 user crates are outside the statement.",
+                technique="finite menu of hostile scopes (no_std rlib, no_implicit_prelude, ~70 prelude/core names shadowed all-at-once and singly in three guises, 19 shadowed macros) x configuration class cover; compiled, run, transcripts compared with the plain scope",
+                text="Every distinct generated item text (closure-class cover from E1) is placed in every hostile scope, must compile with the real derive and "
+                     "produce per-item transcripts identical to the plain scope and to the reference model; no_std subjects are an rlib driven from a std binary."),
+    "C19": dict(engine="E2 rustc oracle + E1 xpand", design="§5 C19", note=E2_NOTE,
+                technique="signature ascription probes (const/static contexts, fn-pointer types, associated types, trait bounds) for every feature x mode x shape x 12 reprs judged by rustc; explicit-state enumeration of all configurations showing exactly one signature class per user-visible item",
+                text="into usable in const/static/const-fn contexts, MIN/MAX associated constants of type E, Option<Self>/Result<Self,()>/&'static str return types, "
+                     "iterator structs implementing the four iterator traits with the documented item types - for all features, modes, gapless/with-holes and "
+                     "12 reprs; at token level no user-visible item has a mode- or shape-dependent signature."),
+})
+
 HOOKS = {
     "guard": "enum_tools_verif",
     "enable": "RUSTFLAGS=\"--cfg enum_tools_verif\" when lib/e1.py builds engines/xpand for C17 (target/xpand-seam); every other engine builds /repo with the guard off",
